@@ -88,6 +88,11 @@ func (g *gen) call(x *ssa.Call, st State, reach string) string {
 			return reach
 		}
 	}
+	if strings.HasPrefix(name, "atomic.") && len(args) > 0 {
+		if g.atomicFunc(x, name, args, st, reach) {
+			return reach
+		}
+	}
 	if ignoredCall(name) {
 		g.ctx.note("dropped call: " + strings.SplitN(name, ")", 2)[0] + ")")
 		if x.Type() != nil && !isEmptyTuple(x.Type()) {
@@ -233,6 +238,42 @@ func (g *gen) havocThrough(a Val, t types.Type, st State, reach string, depth in
 func isSyncType(t types.Type) bool {
 	s := shortType(t)
 	return strings.HasPrefix(s, "sync.") || strings.HasPrefix(s, "atomic.")
+}
+
+// atomicFunc models the function forms atomic.LoadInt64(&x), atomic.AddInt64(&x, d), … as plain accesses.
+func (g *gen) atomicFunc(x *ssa.Call, name string, args []Val, st State, reach string) bool {
+	op := strings.TrimPrefix(name, "atomic.")
+	a0 := g.redirect(args[0])
+	loc := g.derefLoc(a0, x.Call.Args[0].Type(), st, reach, x.Pos())
+	if loc.Comp == "" {
+		return false
+	}
+	cur := g.loadLoc(st, loc)
+	g.ctx.note("atomic op modelled as plain access")
+	switch {
+	case strings.HasPrefix(op, "Load"):
+		g.setVal(x, cur)
+		if inv := g.typeInv(g.vals[x].T, x.Type(), st); inv != "true" {
+			g.ctx.assume(inv)
+		}
+	case strings.HasPrefix(op, "Store"):
+		g.locWrite(st, loc, args[1].T)
+	case strings.HasPrefix(op, "Add"):
+		nv := g.define("atomic_add", "Int", g.wrap("(+ "+cur+" "+args[1].T+")", x.Type(), true))
+		g.locWrite(st, loc, nv)
+		g.vals[x] = Val{T: nv, S: "Int", GoT: x.Type()}
+	case strings.HasPrefix(op, "Swap"):
+		old := g.define("atomic_old", g.ctx.sortOf(x.Type()), cur)
+		g.locWrite(st, loc, args[1].T)
+		g.vals[x] = Val{T: old, S: g.ctx.sortOf(x.Type()), GoT: x.Type()}
+	case strings.HasPrefix(op, "CompareAndSwap"):
+		ok := g.define("cas_ok", "Bool", "(= "+cur+" "+args[1].T+")")
+		g.locWrite(st, loc, "(ite "+ok+" "+args[2].T+" "+cur+")")
+		g.vals[x] = Val{T: ok, S: "Bool", GoT: x.Type()}
+	default:
+		return false
+	}
+	return true
 }
 
 // atomicCall models sync/atomic typed values (Int64, Bool, …) as plain cells of their struct field "v".
